@@ -180,6 +180,27 @@ func (it *Interp) reflectTypeMethod(tok *typeToken, name string, args []Value) V
 			n = iface.NumMethods()
 		}
 		return Value{Bits: uint64(n)}
+	case "NumField":
+		if st, ok := t.Underlying().(*types.Struct); ok {
+			return Value{Bits: uint64(st.NumFields())}
+		}
+		it.goPanicValue(mkStrIface(it, "reflect: NumField of non-struct type "+typeStr(t)))
+	case "Field":
+		st, ok := t.Underlying().(*types.Struct)
+		if !ok {
+			it.goPanicValue(mkStrIface(it, "reflect: Field of non-struct type "+typeStr(t)))
+		}
+		i := int(it.concInt(args[0], types.Typ[types.Int]))
+		if i < 0 || i >= st.NumFields() {
+			it.goPanicValue(mkStrIface(it, "reflect: Field index out of bounds"))
+		}
+		f := st.Field(i)
+		pkgPath := ""
+		if !f.Exported() && f.Pkg() != nil {
+			pkgPath = f.Pkg().Path()
+		}
+		// reflect.StructField{Name, PkgPath, Type, Tag, Offset, Index, Anonymous}
+		return Value{Ref: &Agg{v: []Value{mkStr(f.Name()), mkStr(pkgPath), it.reflectTypeValue(f.Type()), mkStr(reflectTagValue(st.Tag(i))), {}, {}, {Bits: b2u(f.Embedded())}}}}
 	case "Bits":
 		if isScalar(t) {
 			s, _ := scalarSort(t)
@@ -247,3 +268,225 @@ func (eng *Engine) genericIntrinsic(fn *ssa.Function) intrinsic {
 	eng.genIntr.Store(fn, in)
 	return in
 }
+
+// ---- reflect.Value (lite) ----
+//
+// A reflect.Value is an opaque register value: nil Ref is the zero Value
+// (invalid), otherwise *ReflVal pairs the go/types type with the engine value.
+
+type ReflVal struct {
+	t types.Type
+	v Value
+}
+
+func isReflectValueType(t types.Type) bool {
+	n, ok := t.(*types.Named)
+	return ok && n.Obj().Pkg() != nil && n.Obj().Pkg().Path() == "reflect" && n.Obj().Name() == "Value"
+}
+
+func (it *Interp) reflVal(v Value, method string) *ReflVal {
+	rv, ok := v.Ref.(*ReflVal)
+	if !ok {
+		if v.Ref == nil {
+			it.goPanicValue(mkStrIface(it, "reflect: call of reflect.Value."+method+" on zero Value"))
+		}
+		if _, isAgg := v.Ref.(*Agg); isAgg {
+			it.goPanicValue(mkStrIface(it, "reflect: call of reflect.Value."+method+" on zero Value"))
+		}
+		it.checkPoison(v)
+		it.unsupported("reflect.Value of an unmodelled shape")
+	}
+	return rv
+}
+
+func reflValid(v Value) bool {
+	_, ok := v.Ref.(*ReflVal)
+	return ok
+}
+
+func (it *Interp) reflKindPanic(method string, rv *ReflVal) {
+	it.goPanicValue(mkStrIface(it, "reflect: call of reflect.Value."+method+" on "+typeStr(rv.t)+" Value"))
+}
+
+func reflectValueIntrinsics() map[string]intrinsic {
+	m := map[string]intrinsic{
+		"reflect.ValueOf": func(it *Interp, fn *ssa.Function, args []Value) Value {
+			ifc, _ := args[0].Ref.(*Iface)
+			if ifc == nil {
+				return Value{}
+			}
+			if _, isTok := ifc.v.Ref.(*typeToken); isTok {
+				it.unsupported("reflect.ValueOf of a reflect.Type")
+			}
+			return Value{Ref: &ReflVal{t: ifc.t, v: ifc.v}}
+		},
+		"(reflect.Value).IsValid": func(it *Interp, fn *ssa.Function, args []Value) Value {
+			return Value{Bits: b2u(reflValid(args[0]))}
+		},
+		"(reflect.Value).Kind": func(it *Interp, fn *ssa.Function, args []Value) Value {
+			if !reflValid(args[0]) {
+				return Value{}
+			}
+			return Value{Bits: reflectKindOf(args[0].Ref.(*ReflVal).t)}
+		},
+		"(reflect.Value).Type": func(it *Interp, fn *ssa.Function, args []Value) Value {
+			return it.reflectTypeValue(it.reflVal(args[0], "Type").t)
+		},
+		"(reflect.Value).CanInterface": func(it *Interp, fn *ssa.Function, args []Value) Value {
+			it.reflVal(args[0], "CanInterface")
+			return Value{Bits: 1}
+		},
+		"(reflect.Value).Interface": func(it *Interp, fn *ssa.Function, args []Value) Value {
+			rv := it.reflVal(args[0], "Interface")
+			if _, isI := rv.t.Underlying().(*types.Interface); isI {
+				return rv.v
+			}
+			return Value{Ref: &Iface{t: rv.t, v: rv.v}}
+		},
+		"(reflect.Value).Bool": func(it *Interp, fn *ssa.Function, args []Value) Value {
+			rv := it.reflVal(args[0], "Bool")
+			if reflectKindOf(rv.t) != 1 {
+				it.reflKindPanic("Bool", rv)
+			}
+			return rv.v
+		},
+		"(reflect.Value).Int": func(it *Interp, fn *ssa.Function, args []Value) Value {
+			rv := it.reflVal(args[0], "Int")
+			if k := reflectKindOf(rv.t); k < 2 || k > 6 {
+				it.reflKindPanic("Int", rv)
+			}
+			return it.convert(rv.v, rv.t, types.Typ[types.Int64])
+		},
+		"(reflect.Value).Uint": func(it *Interp, fn *ssa.Function, args []Value) Value {
+			rv := it.reflVal(args[0], "Uint")
+			if k := reflectKindOf(rv.t); k < 7 || k > 12 {
+				it.reflKindPanic("Uint", rv)
+			}
+			return it.convert(rv.v, rv.t, types.Typ[types.Uint64])
+		},
+		"(reflect.Value).Float": func(it *Interp, fn *ssa.Function, args []Value) Value {
+			rv := it.reflVal(args[0], "Float")
+			if k := reflectKindOf(rv.t); k != 13 && k != 14 {
+				it.reflKindPanic("Float", rv)
+			}
+			return it.convert(rv.v, rv.t, types.Typ[types.Float64])
+		},
+		"(reflect.Value).String": func(it *Interp, fn *ssa.Function, args []Value) Value {
+			if !reflValid(args[0]) {
+				return mkStr("<invalid Value>")
+			}
+			rv := args[0].Ref.(*ReflVal)
+			if reflectKindOf(rv.t) != 24 {
+				return mkStr("<" + typeStr(rv.t) + " Value>")
+			}
+			return rv.v
+		},
+		"(reflect.Value).Len": func(it *Interp, fn *ssa.Function, args []Value) Value {
+			rv := it.reflVal(args[0], "Len")
+			switch x := rv.v.Ref.(type) {
+			case *Str:
+				return Value{Bits: uint64(x.Len())}
+			case Slice:
+				return Value{Bits: uint64(x.n)}
+			case *Agg:
+				if _, ok := rv.t.Underlying().(*types.Array); ok {
+					return Value{Bits: uint64(len(x.v))}
+				}
+			case *MapObj:
+				return Value{Bits: uint64(len(x.keys))}
+			case nil:
+				switch rv.t.Underlying().(type) {
+				case *types.Slice, *types.Map:
+					return Value{}
+				}
+			}
+			it.reflKindPanic("Len", rv)
+			return Value{}
+		},
+		"(reflect.Value).IsNil": func(it *Interp, fn *ssa.Function, args []Value) Value {
+			rv := it.reflVal(args[0], "IsNil")
+			switch rv.t.Underlying().(type) {
+			case *types.Pointer, *types.Map, *types.Chan, *types.Signature, *types.Interface:
+				return Value{Bits: b2u(rv.v.Ref == nil)}
+			case *types.Slice:
+				s, ok := rv.v.Ref.(Slice)
+				return Value{Bits: b2u(!ok || s.c == nil)}
+			case *types.Basic:
+				if reflectKindOf(rv.t) == 26 {
+					return Value{Bits: b2u(rv.v.Ref == nil)}
+				}
+			}
+			it.reflKindPanic("IsNil", rv)
+			return Value{}
+		},
+		"(reflect.Value).Index": func(it *Interp, fn *ssa.Function, args []Value) Value {
+			rv := it.reflVal(args[0], "Index")
+			i := int(it.concInt(args[1], types.Typ[types.Int]))
+			switch u := rv.t.Underlying().(type) {
+			case *types.Slice:
+				s, _ := rv.v.Ref.(Slice)
+				if i < 0 || i >= s.n {
+					it.goPanicValue(mkStrIface(it, "reflect: slice index out of range"))
+				}
+				return Value{Ref: &ReflVal{t: u.Elem(), v: s.c[i].load()}}
+			case *types.Array:
+				a := rv.v.Ref.(*Agg)
+				if i < 0 || i >= len(a.v) {
+					it.goPanicValue(mkStrIface(it, "reflect: array index out of range"))
+				}
+				return Value{Ref: &ReflVal{t: u.Elem(), v: a.v[i]}}
+			case *types.Basic:
+				if s, ok := rv.v.Ref.(*Str); ok {
+					if i < 0 || i >= s.Len() {
+						it.goPanicValue(mkStrIface(it, "reflect: string index out of range"))
+					}
+					return Value{Ref: &ReflVal{t: types.Typ[types.Uint8], v: s.At(i)}}
+				}
+			}
+			it.reflKindPanic("Index", rv)
+			return Value{}
+		},
+		"(reflect.Value).Elem": func(it *Interp, fn *ssa.Function, args []Value) Value {
+			rv := it.reflVal(args[0], "Elem")
+			switch u := rv.t.Underlying().(type) {
+			case *types.Pointer:
+				if rv.v.Ref == nil {
+					return Value{}
+				}
+				return Value{Ref: &ReflVal{t: u.Elem(), v: it.load(rv.v)}}
+			case *types.Interface:
+				ifc, _ := rv.v.Ref.(*Iface)
+				if ifc == nil {
+					return Value{}
+				}
+				return Value{Ref: &ReflVal{t: ifc.t, v: ifc.v}}
+			}
+			it.reflKindPanic("Elem", rv)
+			return Value{}
+		},
+		"(reflect.Value).NumField": func(it *Interp, fn *ssa.Function, args []Value) Value {
+			rv := it.reflVal(args[0], "NumField")
+			if st, ok := rv.t.Underlying().(*types.Struct); ok {
+				return Value{Bits: uint64(st.NumFields())}
+			}
+			it.reflKindPanic("NumField", rv)
+			return Value{}
+		},
+		"(reflect.Value).Field": func(it *Interp, fn *ssa.Function, args []Value) Value {
+			rv := it.reflVal(args[0], "Field")
+			i := int(it.concInt(args[1], types.Typ[types.Int]))
+			if st, ok := rv.t.Underlying().(*types.Struct); ok {
+				a := rv.v.Ref.(*Agg)
+				if i < 0 || i >= len(a.v) {
+					it.goPanicValue(mkStrIface(it, "reflect: Field index out of range"))
+				}
+				return Value{Ref: &ReflVal{t: st.Field(i).Type(), v: a.v[i]}}
+			}
+			it.reflKindPanic("Field", rv)
+			return Value{}
+		},
+	}
+	return m
+}
+
+func reflectTagValue(tag string) string { return tag }
